@@ -25,14 +25,17 @@ def nontrivial(sc, obs):
 def run(rep):
     quick = rep.tier == "quick"
     rng = random.Random(rep.seed)
-    rep.rule = ("S->I: every scenario of the TLA+-enumerated universe (nesting x user-class set x failure point) "
-                "with seeded flavours; I->S: seeded-random scenarios (flavour per class, <= 6 objects per file, "
+    rep.rule = ("S->I: every scenario of the TLA+-enumerated universe (nesting x user-class set x failure point; quick: "
+                "one per nesting x user-class set x failure step) with seeded flavours and exception classes; I->S: seeded-random scenarios (flavour per class, <= 6 objects per file, "
                 "depth <= 3, 1-3 files / provider-triggered nested load, one failure point or none). Non-trivial: "
                 "user classes present and (>= 2 objects initialised, or the load fails, or it is nested); distinct by content.")
     rep.assumptions = [
         "carrier grammar of DESIGN Appendix D with a named Model root; user classes on Model/Pkg/DefA; "
         "__slots__ classes list the rule attributes, parent, _tx_position(_end) and __weakref__; a __slots__ class is never the root",
-        "references are resolved by a PlainNameImportURI provider wrapped by the harness (Postponed / raise / nested load as scheduled)",
+        "references are resolved by a PlainNameImportURI provider (or, main model loaded from a string, a PlainNameGlobalRepo "
+        "file-pattern provider) wrapped by the harness (Postponed / raise / nested load as scheduled); six user-class "
+        "flavours incl. class-level defaults named like grammar attributes; user code fails with an Exception, a "
+        "BaseException subclass, KeyboardInterrupt or SystemExit (rendering choices the module does not see)",
         "object processors only on concrete rules; their order (C13) is taken as post-order, list order",
         "no provider-triggered nested load together with a global repository (userclasses_check.in_fragment; while the "
         "finding RestoreWithoutInstrument is open also: provider swallowing a nested failure only in shapes where the "
@@ -55,7 +58,7 @@ def run(rep):
     # (S->I)
     cases = [s for s in scen if not s["grepo"]]
     if quick:
-        cases = [s for s in cases if rng.random() < 0.5]
+        cases = K.stratified(cases, rng)
     cases = [K.assign_flavours(s, rng) for s in cases]
     skipped = [s for s in cases if not K.in_fragment(s)]
     cases = [s for s in cases if K.in_fragment(s)]
